@@ -251,6 +251,14 @@ pub trait Coll<P: PT>: Clone + Default {
     fn variants_disagree(&self, _p: &P) -> Option<String> {
         None
     }
+    /// C19: [clone == self, clone unaffected by mutating self, self unaffected by mutating the clone]
+    fn clone_check(&self, fresh: &P) -> Value;
+    /// C19: [collect(iter()) == self, collecting twice gives the same shape]
+    fn collect_check(&self, ctx: &Ctx) -> Value;
+    /// C19: serialize + deserialize gives an equal map (None: not available for this collection)
+    fn serde_check(&self) -> Option<Value> {
+        None
+    }
     /// an observation-relative line (see trace::obs_event_over) over the given table universe
     fn obs_line(&self, _ctx: &Ctx, _universe: &[Vec<u8>]) -> Option<String> {
         None
@@ -331,6 +339,43 @@ impl<P: PT> Coll<P> for PrefixMap<P, i32> {
     }
     fn as_map(&mut self) -> Option<&mut PrefixMap<P, i32>> {
         Some(self)
+    }
+    fn clone_check(&self, fresh: &P) -> Value {
+        let before = self.entries();
+        let mut c = self.clone();
+        let eq = (c == *self && *self == c) as i32;
+        // mutate the clone: the original must not move
+        c.insert(fresh.clone(), 77);
+        if let Some((p, _)) = before.first() {
+            c.remove(p);
+        }
+        for v in c.values_mut() {
+            *v += 1000;
+        }
+        let ind1 = (self.entries() == before) as i32;
+        // mutate a second original: its earlier clone must not move
+        let mut o = self.clone();
+        let c2 = o.clone();
+        o.clear();
+        o.insert(fresh.clone(), 5);
+        let ind2 = (c2.entries() == before && c2.len() == before.len()) as i32;
+        json!([eq, ind1, ind2])
+    }
+    fn collect_check(&self, ctx: &Ctx) -> Value {
+        let c: PrefixMap<P, i32> = self.iter().map(|(p, v)| (p.clone(), *v)).collect();
+        let c2: PrefixMap<P, i32> = c.clone().into_iter().collect();
+        let eq = (c == *self && *self == c && c.len() == self.entries().len()) as i32;
+        let same = (Coll::<P>::tree(&c, ctx) == Coll::<P>::tree(&c2, ctx)) as i32;
+        json!([eq, same])
+    }
+    fn serde_check(&self) -> Option<Value> {
+        // through a string-keyed prefix type (serde_json needs string keys)
+        let m: PrefixMap<crate::codec::StrPfx, i32> = self.iter().map(|(p, v)| (crate::codec::StrPfx::of(p), *v)).collect();
+        let s = serde_json::to_string(&m).ok()?;
+        let back: PrefixMap<crate::codec::StrPfx, i32> = serde_json::from_str(&s).ok()?;
+        let ok = back == m && m == back && back.len() == m.len()
+            && back.iter().map(|(p, v)| (p.clone(), *v)).collect::<Vec<_>>() == m.iter().map(|(p, v)| (p.clone(), *v)).collect::<Vec<_>>();
+        Some(json!([ok as i32]))
     }
     fn iter_kinds_disagree(&self) -> Option<String> {
         let base: Vec<(P, i32)> = self.iter().take(LIM).map(|(p, v)| (p.clone(), *v)).collect();
@@ -536,6 +581,29 @@ impl<P: PT> Coll<P> for PrefixSet<P> {
     }
     fn snap(&self) -> VerifSnapshot {
         self.verif_snapshot()
+    }
+    fn clone_check(&self, fresh: &P) -> Value {
+        let before = self.entries();
+        let mut c = self.clone();
+        let eq = (c == *self && *self == c) as i32;
+        c.insert(fresh.clone());
+        if let Some((p, _)) = before.first() {
+            c.remove(p);
+        }
+        let ind1 = (self.entries() == before) as i32;
+        let mut o = self.clone();
+        let c2 = o.clone();
+        o.clear();
+        o.insert(fresh.clone());
+        let ind2 = (c2.entries() == before && c2.len() == before.len()) as i32;
+        json!([eq, ind1, ind2])
+    }
+    fn collect_check(&self, ctx: &Ctx) -> Value {
+        let c: PrefixSet<P> = self.iter().cloned().collect();
+        let c2: PrefixSet<P> = c.clone().into_iter().collect();
+        let eq = (c == *self && *self == c && c.len() == self.entries().len()) as i32;
+        let same = (Coll::<P>::tree(&c, ctx) == Coll::<P>::tree(&c2, ctx)) as i32;
+        json!([eq, same])
     }
     fn iter_kinds_disagree(&self) -> Option<String> {
         let base: Vec<P> = self.iter().take(LIM).cloned().collect();
@@ -992,6 +1060,19 @@ fn apply_inner<P: PT, C: Coll<P>>(c: &mut C, ev: &Value, ctx: &Ctx) -> Option<Ou
             pvs(ctx, c.entries().into_iter())
         }),
         "Len" => guarded(|| json!([c.len()])),
+        "CloneCheck" => {
+            // a key outside the table universes (4 bits long)
+            let fresh: P = ctx.dec(&json!({"n": [1, 0, 1, 1], "h": "0"}));
+            guarded(|| c.clone_check(&fresh))
+        }
+        "Collect" => guarded(|| c.collect_check(ctx)),
+        "Serde" => {
+            let r = guarded(|| c.serde_check().unwrap_or(json!(["NA"])));
+            if r.ret == json!(["NA"]) {
+                return None;
+            }
+            r
+        }
         _ => return None,
     };
     Some(out)
